@@ -39,7 +39,7 @@ func c03Sizes(l PDULayout, tier string) []int {
 	for _, n := range []int{0, 1, 3, 4, 11, 12, 13, 19, 20, m - 1, m, m + 1, m + 4} {
 		add(n)
 	}
-	if w := listWidth(l); w > 0 {
+	if w := listWidth(l); w > 0 && (tier == "thorough" || !hasK(l, "opts")) {
 		add(m + w)
 		add(m + w + 1)
 	}
@@ -104,9 +104,9 @@ func c03Jobs(tier string) []Job {
 	for n := 0; n <= 10; n++ {
 		js = append(js, Job{Dir: "", Harness: "VH_C07_parse", Params: map[string]int{"n": n}, Name: fmt.Sprintf("ParseLongSmsContent_n%d", n)})
 	}
-	rn := []int{0, 1, 3, 4, 6, 8}
+	rn := []int{0, 1, 3, 4, 6, 8, 10, 12}
 	if tier == "thorough" {
-		rn = []int{0, 1, 2, 3, 4, 5, 6, 7, 8, 10, 12}
+		rn = []int{0, 1, 2, 3, 4, 5, 6, 7, 8, 9, 10, 11, 12, 13, 14}
 	}
 	for _, n := range rn {
 		js = append(js, Job{Dir: "smpp/smpp34", Harness: "VH_C03_smpp_receipt_raw", Params: map[string]int{"n": n}, Weight: 5 * n, MaxPaths: 40000})
@@ -125,6 +125,9 @@ func c03Jobs(tier string) []Job {
 	}
 	for _, n := range []int{0, 1, 2} {
 		for smpp := 0; smpp <= 1; smpp++ {
+			if n == 2 && smpp == 1 && tier != "thorough" {
+				continue
+			}
 			js = append(js, Job{Dir: "", Harness: "VH_C03_content_decode", Params: map[string]int{"n": n, "smpp": smpp}, Weight: 30 + n, MaxPaths: 40000})
 		}
 	}
@@ -145,7 +148,7 @@ func init() {
 		Stubs:     pduStubs,
 		Bounds: map[string]string{
 			"input":      "every octet string of length N (all N octets symbolic): one job subsumes every truncation point, every substitution of count/length octets and every trailing garbage of that total length",
-			"auxiliary":  "dispatchers (N around the header size), header peekers (N 0..24), TLV/option parsers (N <= 10, thorough 14), ParseLongSmsContent (N <= 10), receipt parsers (N <= 8, thorough 12), gsm7 Unpack (N <= 14), Decode (N <= 2), decoding transformers (N <= 3), content decoders (N <= 2, every coding number), frame extractors (M <= 8)",
+			"auxiliary":  "dispatchers (N around the header size), header peekers (N 0..24), TLV/option parsers (N <= 10, thorough 14), ParseLongSmsContent (N <= 10), receipt parsers (N <= 12, thorough 14), gsm7 Unpack (N <= 14), Decode (N <= 2), decoding transformers (N <= 3), content decoders (N <= 2, every coding number), frame extractors (M <= 8)",
 			"N":          "quick: {0,1,3,4,11,12,13,19,20, min-1, min, min+1, min+4, min+one list entry(+1), min+5/+8 for optional parameters}; thorough: every N up to min+12 and around two list entries",
 			"no-hang":    "per-path instruction budget 400000+4000*N; exceeding it on a feasible path is reported as a violation (label unwind) and replayed natively under a wall-clock limit",
 			"allocation": "every make() whose size is symbolic must satisfy size <= 16*N+1024 at the allocation site",
